@@ -6,22 +6,61 @@ From Coq Require Import List.
 From Grog Require Import Lock Lock_proofs.
 Import ListNotations.
 
-(* Mutual exclusion is FALSE of the faithful model: two kernel-checked schedules after which
-   processes 0 and 1 are both past Lock().
-   W1 (lock file absent): 1 reads the file between 0's exclusive create and 0's PID write, sees
-   "", removes it and acquires; only [read_before_write] fires on that schedule.
+(* Mutual exclusion is still FALSE of the faithful model (finding C10-F2): a kernel-checked
+   schedule after which processes 0 and 1 are both past Lock().
    W2 (lock file names dead process 2): 0 and 1 both read and probe the stale PID; 0 removes,
-   re-creates and holds; 1 then removes 0's fresh file and acquires; only
-   [remove_of_unexamined_inode] fires. *)
+   re-creates and holds; 1 then removes 0's fresh file and acquires; the guard
+   [remove_of_unexamined_inode] fires on that schedule. *)
 Theorem C10_mutex_refuted :
-  (init w1_init /\ guards_fired w1_init w1_sched = Some (true, false) /\
-   exists s, run w1_init w1_sched = Some s /\ reachable w1_init s /\
-     exists p q, p <> q /\ holds s p /\ holds s q) /\
-  (init w2_init /\ guards_fired w2_init w2_sched = Some (false, true) /\
-   exists s, run w2_init w2_sched = Some s /\ reachable w2_init s /\
-     exists p q, p <> q /\ holds s p /\ holds s q).
+  init w2_init /\ guard_fired w2_init w2_sched = Some true /\
+  exists s, run w2_init w2_sched = Some s /\ reachable w2_init s /\
+    exists p q, p <> q /\ holds s p /\ holds s q.
 Proof. exact mutex_refuted. Qed.
 Print Assumptions C10_mutex_refuted.
+
+(* The other schedule that used to give two holders (W1, finding C10-F1: 1 reads the file between
+   0's exclusive create and 0's PID write, sees "", removes it and acquires) is gone with the
+   repair: the lock file appears with its content (os.Link of a private, already written file).
+   After [TryCreate 0; TryCreate 1; Read 1] process 1 has no [Remove] step; it probes 0 and waits:
+   0 holds inode 0 with its PID in it, 1 is Waiting, no guard fired, one holder. *)
+Theorem C10_w1_repaired :
+  w1_sched = [TryCreate 0; TryCreate 1; Read 1; Probe 1] /\
+  init w1_init /\ guard_fired w1_init w1_sched = Some false /\
+  run w1_init [TryCreate 0; TryCreate 1; Read 1; Remove 1] = None /\
+  exists s, run_g w1_init w1_sched = Some s /\ reachable_g w1_init s /\
+    pcs s 0 = Held 0 /\ pcs s 1 = Waiting /\ lock s = Some 0 /\ content s 0 = Some 0 /\
+    forall p q, holds s p -> holds s q -> p = q.
+Proof. exact w1_repaired. Qed.
+Print Assumptions C10_w1_repaired.
+
+(* A created lock file always names its creator: in every state reachable -- by ANY steps, no
+   guard -- from a state in which no inode has a creator yet (every [mk_init] configuration: lock
+   file absent, empty, garbage or any PID), an inode created by process p contains p's PID. *)
+Theorem C10_lock_file_never_empty : forall s0 s,
+  (forall i, creator s0 i = None) -> reachable s0 s ->
+  forall i p, creator s i = Some p -> content s i = Some p.
+Proof. exact lock_file_names_creator. Qed.
+Print Assumptions C10_lock_file_never_empty.
+
+(* ... so no reader ever observes "" from a fresh file: a [Read] that finds no PID (and goes on to
+   remove the file) has looked at an inode that was at the path before any process started. *)
+Theorem C10_blank_read_is_preexisting : forall s0 s p s' i,
+  init s0 -> (forall j, creator s0 j = None) -> reachable s0 s ->
+  step s (Read p) = Some s' -> pcs s' p = WantRemove (Some i) ->
+  lock s = Some i /\ content s i = None /\ creator s i = None /\ i < next s0.
+Proof. exact blank_read_is_preexisting. Qed.
+Print Assumptions C10_blank_read_is_preexisting.
+
+Theorem C10_created_files_nonvacuous :
+  (forall dead lk, (forall i p, creator (mk_init dead lk) i = Some p -> content (mk_init dead lk) i = Some p) /\
+                   forall j, creator (mk_init dead lk) j = None) /\
+  init blank_init /\
+  (exists s s', run blank_init [TryCreate 0] = Some s /\ step s (Read 0) = Some s' /\
+     pcs s' 0 = WantRemove (Some 0) /\ 0 < next blank_init) /\
+  (exists s, run blank_init [TryCreate 0; Read 0; Remove 0; TryCreate 0] = Some s /\
+     lock s = Some 1 /\ creator s 1 = Some 0 /\ content s 1 = Some 0 /\ content s 0 = None).
+Proof. exact created_files_nonvacuous. Qed.
+Print Assumptions C10_created_files_nonvacuous.
 
 Theorem C10_mutex_unguarded_false :
   ~ (forall s0 s, init s0 -> reachable s0 s -> forall p q, holds s p -> holds s q -> p = q).
@@ -29,10 +68,11 @@ Proof. exact mutex_unguarded_false. Qed.
 Print Assumptions C10_mutex_unguarded_false.
 
 (* Strongest true statement: mutual exclusion in every state reachable by steps on which
-   neither boolean guard fires -- any number of processes, any initial lock file (absent,
-   garbage, any PID), crashes anywhere.  What is missing for the unguarded C10_mutex: exactly
-   the steps [Read p] that observe an inode whose creator has not yet written its PID, and the
-   steps [Remove p] issued while the path names an inode other than the one p examined. *)
+   the ONE remaining boolean guard does not fire -- any number of processes, any initial lock file
+   (absent, garbage, any PID), crashes anywhere.  What is missing for the unguarded C10_mutex:
+   exactly the steps [Remove p] issued while the path names an inode other than the one p
+   examined (finding C10-F2).  [reachable_g] has no other premise: the former guard
+   read_before_write went away with the repair of C10-F1. *)
 Theorem C10_mutex_partial : forall s0 s,
   init s0 -> reachable_g s0 s ->
   forall p q, holds s p -> holds s q -> p = q.
@@ -114,7 +154,7 @@ Proof. exact stale_recovered_nonvacuous. Qed.
 Print Assumptions C10_stale_recovered_nonvacuous.
 
 (* ---- cancellation of a waiting contender ([Cancel p]: ctx.Done() wins the select of Lock,
-   workspace_locker.go:80-81; SIGINT/SIGTERM cancel the build's context) ---- *)
+   workspace_locker.go, end of the loop; SIGINT/SIGTERM cancel the build's context) ---- *)
 
 (* An interrupted waiter changes nothing but itself: the step is enabled only at Waiting, the
    lock path, every inode's content (and the ghost creator, and the inode counter) and every
@@ -156,16 +196,16 @@ Proof. exact waiter_can_give_up. Qed.
 Print Assumptions C10_waiter_can_give_up.
 
 (* The hypotheses above are satisfiable and the new event is live in the guarded relation
-   (schedule NC of Lock.v, lock file initially absent): after 5 events 0 holds, 1 waits, 2 has not
+   (schedule NC of Lock.v, lock file initially absent): after 4 events 0 holds, 1 waits, 2 has not
    started; after [Cancel 1] and 2's three calls 0 still holds its file (inode 0, PID 0), 1 has
-   given up, 2 waits; after [Unlock 0; Wake 2; TryCreate 2; WritePid 2] 2 holds. *)
+   given up, 2 waits; after [Unlock 0; Wake 2; TryCreate 2] 2 holds. *)
 Theorem C10_cancel_nonvacuous :
-  nc_sched = [TryCreate 0; WritePid 0; TryCreate 1; Read 1; Probe 1; Cancel 1;
-              TryCreate 2; Read 2; Probe 2; Unlock 0; Wake 2; TryCreate 2; WritePid 2] /\
+  nc_sched = [TryCreate 0; TryCreate 1; Read 1; Probe 1; Cancel 1;
+              TryCreate 2; Read 2; Probe 2; Unlock 0; Wake 2; TryCreate 2] /\
   init w1_init /\
-  (exists s, run_g w1_init (firstn 5 nc_sched) = Some s /\ reachable_g w1_init s /\
+  (exists s, run_g w1_init (firstn 4 nc_sched) = Some s /\ reachable_g w1_init s /\
      pcs s 0 = Held 0 /\ pcs s 1 = Waiting /\ pcs s 2 = Idle) /\
-  (exists s, run_g w1_init (firstn 9 nc_sched) = Some s /\ reachable_g w1_init s /\
+  (exists s, run_g w1_init (firstn 8 nc_sched) = Some s /\ reachable_g w1_init s /\
      pcs s 0 = Held 0 /\ pcs s 1 = GaveUp /\ pcs s 2 = Waiting /\
      lock s = Some 0 /\ content s 0 = Some 0) /\
   (exists s, run_g w1_init nc_sched = Some s /\ reachable_g w1_init s /\
